@@ -482,3 +482,7 @@ mod tests {
         );
     }
 }
+
+#[cfg(kani)]
+#[path = "/verif/harness/anda_db_hnsw/distance.rs"]
+mod verif_kani;
